@@ -92,7 +92,7 @@ func runC05(w *World) {
 			return
 		}
 	}
-	e.Serve("10.0.0.5:179")
+	e.Serve([]string{"10.0.0.5:179", "10.0.0.6:179", "[::]:179"}[:1+w.Draw(3, "nlisteners")]...)
 	if !w.WaitUntil("c05.bystander", time.Minute, func() bool { return b.Plug.NEst == 1 }) {
 		w.Violate("C05/bystander/not-established", "the well-behaved bystander peer did not establish")
 		return
